@@ -135,17 +135,9 @@ func C18(c *fw.Ctx) {
 		c.Inc("observed", "yield_points_hit", cr.Yields)
 		for _, m := range cr.Mismatches {
 			key := "other"
-			if strings.HasPrefix(m, "only-examples:") {
-				files := map[string][]byte{}
-				for _, p := range j.Conc.Projects {
-					if strings.Contains(m, " of "+p.Name+":") {
-						files[p.Name] = p.Content
-					}
-				}
-				if regexUnionProject(files) {
-					c.Violate("mismatch:"+sigRegexExample, "concurrent result differs from the sequential one only in regex-type examples: "+m, replayOf(j, res))
-					continue
-				}
+			if concMismatchIsD27(j, m) {
+				c.Violate("mismatch:"+sigRegexExample, "concurrent result differs from the sequential one only in regex-type examples: "+m, replayOf(j, res))
+				continue
 			}
 			switch {
 			case strings.Contains(m, "\"example\""), strings.Contains(m, "example"):
